@@ -175,6 +175,13 @@ def check_case(case):
         outs.add(run_one(res, spec, None, None, None, "settings"))
         res.nontrivial = 1
         return res
+    if fam == "dead":   # every source at 0 V: the table is all zeros (converged), whatever the start vectors of the solver were
+        spec = spec_from_forest(case["f"], case["pal"], 1, 0.37, src_vo=0.0)
+        o = run_one(res, spec, None, None, None, "dead")
+        if o != "table":
+            res.v(("C03.liveness", o, "dead"), "a system without any live source has the all-zero steady state but solve() -> %s" % o)
+        res.nontrivial = 1
+        return res
     if fam == "muxneg":   # a multi-input mux whose per-input resistances are written with a negative sign: still a passive element
         from ..muxsys import mux_spec
         spec = mux_spec([tuple(x) for x in case["inputs"]], case["pal"], "neg", below="std")
@@ -346,7 +353,10 @@ def gen_cases(tier):
                         yield dict(fam="livep", f=f, pal=pal, pol=1, srs=0.0, ph3=True)
         from ..muxsys import INPUT_OPTS
         import itertools as _it
-        for inputs in _it.product(INPUT_OPTS[:7], repeat=2):
+        for n in (1, 2):
+            for f in mid.iter_forests(n):
+                yield dict(fam="dead", f=f, pal=pal, pol=1, srs=0.37)
+        for inputs in _it.product(INPUT_OPTS, repeat=2):
             yield dict(fam="muxneg", inputs=[list(x) for x in inputs], pal=pal, pol=1, srs=0.0)
         for n in ((1, 2, 3) if tier == "quick" or pal != sd % 3 else (1, 2, 3, 4)):
             for f in mid.iter_forests(n):
